@@ -1,16 +1,82 @@
-// VS — differential self-test of the scheduler shim's model of channels, select, mutex and
-// WaitGroup against the real Go primitives. Not a property check: it guards the trusted base of
-// every vsched-based check (a model that admits behaviours Go cannot perform raises false alarms;
-// a model that misses behaviours hides defects).
+// VS — differential self-test of the scheduler shim's model of channels, select, mutex, RWMutex,
+// WaitGroup, Once, Cond, atomics and sync.Map against the real Go primitives. Not a property check:
+// it guards the trusted base of every vsched-based check (a model that admits behaviours Go cannot
+// perform raises false alarms; a model that misses behaviours hides defects).
 //
-// Program family: 2–3 threads × 1–3 operations over an unbuffered channel c0, a buffered channel
-// c1 (cap 1), a mutex and a WaitGroup. For each program
+// Original program family (this file, unchanged): 2–3 threads × 1–3 operations over an unbuffered
+// channel c0, a buffered channel c1 (cap 1), a mutex and a WaitGroup. For each program
 //   M = the set of outcomes of ALL schedules of the model (unbounded preemptions, exhaustive);
 //   R = the outcomes observed in N free runs on the real primitives with random yields/sleeps.
 // Hard check:  R ⊆ M   (every real behaviour is a model behaviour — otherwise ERROR).
 // Soft metric: M \ R   (model outcomes never observed for real; reported, they are either rare
 //                       schedules or model slips — listed in the evidence for inspection).
-// An outcome = per-thread list of operation results (+ "blocked" for operations that never return).
+// An outcome = per-thread list of operation results (+ "blocked" for operations that never return,
+// "panic" for an operation that panicked: the thread stops there).
+//
+// Additional families (families.go), each with its own small alphabet; one operation definition
+// serves both sides (written against interfaces that the vsched and the real types both satisfy):
+//   mutex     Lock / Unlock / TryLock + a critical section that counts who is inside
+//   rw        RWMutex: RLock/RUnlock/Lock/Unlock and read / write sections that count who is inside;
+//             balanced, un-nested use only (everything else shows slip S1, see rwx)
+//   once      Once.Do with a plain, panicking, blocking (receive), sending and nested function
+//   cond      Cond over the mutex: Wait with the lock held, Signal/Broadcast with and without it,
+//             also as composite lock+wait+unlock / lock+signal+unlock / lock+broadcast+unlock
+//   wg        WaitGroup with negative counters (panic) inside the documented contract (wgContract)
+//   atomic    atomic.Int32;  atomicfn  function-style int64 / uint32 (wrap-around);
+//   atomicv   atomic.Bool and atomic.Value (nil / inconsistently typed Store panics)
+//   smap      sync.Map Load/Store/LoadOrStore/LoadAndDelete/Delete/Swap/CompareAndSwap/
+//             CompareAndDelete/Range
+//   chansel   select with a send and a receive case, two send cases, both directions of one channel,
+//             closed and ready cases, send/close on closed channels
+//   channil   nil channels (send/recv/close/len/cap, nil cases in select)
+//   chanlen   len/cap of a cap-2 and an unbuffered channel under traffic
+// Behind VS_SLIPS=1 (each FAILS on the current engine: a real behaviour the model cannot produce;
+// proposed corrections in /verif/.work/vs-proposed/, with which all of them pass):
+//   rwx       S1: a writer that WAITS in RWMutex.Lock already blocks new readers; the model lets
+//             them in ("rlock | rlock | wlock" really ends "ok | blocked | blocked"). Also: the
+//             engine's RWMutex has no TryLock/TryRLock (added by the patch, then part of rwx).
+//   condx     S2: Cond.Wait registers the waiter glued to the caller's previous operation, so a
+//             Signal without the lock can never fall between Lock and the registration
+//             ("lock,cwait | trylock,signal" really can end "ok,blocked | false,ok").
+//   smaprange S3: sync.Map.Range is one atomic step in the model; really it fixes the key set and
+//             reads each value when it gets there, in any order ("mrange | mdelete,mdeleteB" over
+//             {a,b} really can give {a=0}).
+//
+// New in the additional families: (1) a run that does not finish is reported "blocked" only when
+// its state was stable while every unfinished thread sat INSIDE a primitive operation; a real
+// blocked state that is not a model outcome is a hard failure once it has been stable for 1.5 s and
+// 1 500 wake-ups of the poller (so R ⊆ M also covers deadlocks the model misses), anything less is
+// ignored — a loaded machine can only delay the verdict. (2) Model outcomes not seen in the free
+// runs (up to 3–4 batches) are then asked for: a witness execution of the model is replayed with
+// tracing and a DIRECTED real run performs every step at the time slot of its first primitive
+// event in the model's order (δ = 2, 8, 32 ms; up to 4 witnesses). What is still unobserved is
+// listed (x_model_only_<family>_<shard> in the evidence) and needs the human argument.
+// Experiments: VS_FAMILIES=a,b (subset; "legacy" = original family), VS_ONLY="family:program"
+// with VS_REPEAT=n, VS_DEBUG=<file> (cost per program), VS_STUCKDIR=<dir> (goroutine dump of a
+// confirmed blocked state).
+//
+// Measured (go 1.23.5, machine under load 60–120 on 16 cores; CPU time in brackets):
+//   family     quick: programs / model outcomes / M\R      thorough: programs / model outcomes / M\R
+//   original        2 926 /  4 350 / 9-13 (7 idle)              10 751 / 16 952 / 1-7
+//   mutex             500 /  1 678 / 0                            2 213 /  8 557 / 0
+//   rw                300 /    939 / 0                              304 /    946 / 0
+//   once              500 /    702 / 0                            1 680 /  2 284 / 0
+//   cond              900 /  2 067 / 1-2                          9 000 / 23 178 / 14
+//   wg                658 /  1 739 / 0                              658 /  1 739 / 0
+//   atomic            700 /  2 101 / 0                            1 680 /  5 865 / 0
+//   atomicfn          600 /  1 290 / 0                            4 260 /  9 414 / 0
+//   atomicv           700 /  1 274 / 0                            9 064 / 17 093 / 0
+//   smap              700 /  1 677 / 0                            6 325 / 15 719 / 0
+//   chansel           900 /  1 727 / 0                            9 000 / 17 146 / 0
+//   channil           400 /    430 / 0                            6 200 /  6 617 / 0
+//   chanlen           700 /    904 / 0                            8 000 / 12 074 / 0
+//   total          10 484 programs, 36-48 s wall [2m40 CPU]      69 135 programs, 7m13 wall [32 min CPU]
+// In the additional families every real outcome was a model outcome and |R| = |M| - (M\R): the
+// model is exact there. The M\R entries left (cond: chains of two wake-ups that must beat a
+// third thread's only operation) are feasible for the real primitives (Go wakes Cond waiters in
+// ticket order, the model in registration order: the same order) — merely rare under timing.
+// VS_SLIPS=1, quick, current engine: rwx 1 500 programs, 738 real outcomes outside M; condx 748, 4;
+// smaprange 500, 17 (exit 2). With /verif/.work/vs-proposed/all-three.diff: 0 / 0 / 0, M\R = 0 / 0 / 7.
 package main
 
 import (
@@ -391,72 +457,8 @@ func wgNonNegative(p program) bool {
 	return true
 }
 
-func main() {
-	cfg := vlib.ParseFlags("VS", "other")
-	r := vlib.NewReport(cfg)
-	var progs []program
-	// 2 threads × up to 2 ops over the channel alphabet (+ a few 3-thread programs)
-	chanOps := []opk{oSend0, oRecv0, oSend1, oRecv1, oClose0, oClose1, oTrySend0, oTryRecv0, oTrySend1, oTryRecv1, oSelRecv}
-	syncOps := []opk{oLock, oUnlock, oWgAdd, oWgDone, oWgWait}
-	var seqs [][]opk
-	for _, a := range chanOps {
-		seqs = append(seqs, []opk{a})
-		for _, b := range chanOps {
-			seqs = append(seqs, []opk{a, b})
-		}
-	}
-	for i, s1 := range seqs {
-		for j, s2 := range seqs {
-			if j < i {
-				continue
-			}
-			if !cfg.Thorough() && (len(s1)+len(s2) > 3) && (i*31+j)%7 != 0 {
-				continue // quick: all programs of ≤ 3 ops, every 7th of the 4-op ones
-			}
-			progs = append(progs, program{s1, s2})
-		}
-	}
-	for _, a := range chanOps {
-		for _, b := range chanOps {
-			for _, c := range chanOps {
-				if cfg.Thorough() || (int(a)*7+int(b)*3+int(c))%5 == 0 {
-					progs = append(progs, program{{a}, {b}, {c}})
-				}
-			}
-		}
-	}
-	var sseqs [][]opk
-	for _, a := range syncOps {
-		sseqs = append(sseqs, []opk{a})
-		for _, b := range syncOps {
-			sseqs = append(sseqs, []opk{a, b})
-			for _, c := range syncOps {
-				sseqs = append(sseqs, []opk{a, b, c})
-			}
-		}
-	}
-	for i, s1 := range sseqs {
-		for j, s2 := range sseqs {
-			if j < i {
-				continue
-			}
-			p := program{s1, s2}
-			if usesUnlockSafely(p) && wgNonNegative(p) && wgNoReuseMisuse(p) && (cfg.Thorough() || (i+j)%3 == 0) {
-				progs = append(progs, p)
-			}
-		}
-	}
-	realRuns := 25
-	if cfg.Thorough() {
-		realRuns = 120
-	}
-	var names []string
-	for i := 0; i < 16; i++ {
-		names = append(names, fmt.Sprintf("shard%02d", i))
-	}
-	vlib.RunShards(r, names, func(name string, r *vlib.Report) {
-	var shard int
-	fmt.Sscanf(name, "shard%d", &shard)
+// runLegacyShard: the original family (channels, select, mutex, WaitGroup), unchanged.
+func runLegacyShard(cfg *vlib.Config, r *vlib.Report, name string, shard int, progs []program, realRuns int) {
 	nModelOnly, nOutcomes := 0, 0
 	var modelOnly []string
 	for pi, p := range progs {
@@ -520,10 +522,89 @@ func main() {
 	r.Count("model_outcomes", nOutcomes)
 	r.Count("model_outcomes_not_observed_in_free_real_runs", nModelOnly)
 	r.SetExtra("model_only_examples_"+name, modelOnly)
+}
+
+func main() {
+	cfg := vlib.ParseFlags("VS", "other")
+	r := vlib.NewReport(cfg)
+	var progs []program
+	// 2 threads × up to 2 ops over the channel alphabet (+ a few 3-thread programs)
+	chanOps := []opk{oSend0, oRecv0, oSend1, oRecv1, oClose0, oClose1, oTrySend0, oTryRecv0, oTrySend1, oTryRecv1, oSelRecv}
+	syncOps := []opk{oLock, oUnlock, oWgAdd, oWgDone, oWgWait}
+	var seqs [][]opk
+	for _, a := range chanOps {
+		seqs = append(seqs, []opk{a})
+		for _, b := range chanOps {
+			seqs = append(seqs, []opk{a, b})
+		}
+	}
+	for i, s1 := range seqs {
+		for j, s2 := range seqs {
+			if j < i {
+				continue
+			}
+			if !cfg.Thorough() && (len(s1)+len(s2) > 3) && (i*31+j)%7 != 0 {
+				continue // quick: all programs of ≤ 3 ops, every 7th of the 4-op ones
+			}
+			progs = append(progs, program{s1, s2})
+		}
+	}
+	for _, a := range chanOps {
+		for _, b := range chanOps {
+			for _, c := range chanOps {
+				if cfg.Thorough() || (int(a)*7+int(b)*3+int(c))%5 == 0 {
+					progs = append(progs, program{{a}, {b}, {c}})
+				}
+			}
+		}
+	}
+	var sseqs [][]opk
+	for _, a := range syncOps {
+		sseqs = append(sseqs, []opk{a})
+		for _, b := range syncOps {
+			sseqs = append(sseqs, []opk{a, b})
+			for _, c := range syncOps {
+				sseqs = append(sseqs, []opk{a, b, c})
+			}
+		}
+	}
+	for i, s1 := range sseqs {
+		for j, s2 := range sseqs {
+			if j < i {
+				continue
+			}
+			p := program{s1, s2}
+			if usesUnlockSafely(p) && wgNonNegative(p) && wgNoReuseMisuse(p) && (cfg.Thorough() || (i+j)%3 == 0) {
+				progs = append(progs, p)
+			}
+		}
+	}
+	if !onlyFamily("legacy") {
+		progs = nil
+	}
+	xj := xjobs(cfg.Thorough())
+	realRuns := 25
+	if cfg.Thorough() {
+		realRuns = 120
+	}
+	const nShards = 16
+	var names []string
+	for i := 0; i < nShards; i++ {
+		names = append(names, fmt.Sprintf("shard%02d", i))
+	}
+	vlib.RunShards(r, names, func(name string, r *vlib.Report) {
+		var shard int
+		fmt.Sscanf(name, "shard%d", &shard)
+		legacyStart := time.Now()
+		runLegacyShard(cfg, r, name, shard, progs, realRuns)
+		r.Count("legacy_shard_ms", int(time.Since(legacyStart).Milliseconds()))
+		runXShard(cfg, r, shard, nShards, xj)
 	})
 	r.Count("programs", len(progs))
+	r.Count("programs_additional_families", len(xj))
+	summarizeFamilies(r, len(progs))
 	r.SetExtra("explanation", "differential self-test of the scheduler shim: for every program of the family the outcomes of all model schedules are enumerated and every outcome of repeated free runs on the real primitives must be among them (hard check); model outcomes never observed for real are listed for inspection (soft: rare schedules or model slips)")
-	r.SetRule("programs of 2-3 threads x 1-3 channel/select/mutex/WaitGroup operations; distinct = distinct programs")
-	fmt.Printf("VS self-test: programs=%d\n", len(progs))
+	r.SetRule("programs of 2-3 threads x 1-3 operations, one small alphabet per family (original family: channel/select/mutex/WaitGroup; additional families: see counters x/<family>/...); distinct = distinct programs")
+	fmt.Printf("VS self-test: programs=%d (original family) + %d (additional families)\n", len(progs), len(xj))
 	r.Finish()
 }
